@@ -40,7 +40,7 @@ CHECKS = {
    note="Trusted: the stack switch and fill code (sim/seams/stackctx.cc), the allocator shim. Not compared: bytes beyond the returned length, struct padding, metadata out-fields. Caller-owned in/out metadata is only passed in documented states."),
  "C09": dict(engine="E-HIST hist.packed + hist.hugepacked + E-TRACE footprint", category="exploration",
    technique="deterministic simulation: seeded operation histories against a reference bit-stream image, access tracer as footprint monitor",
-   text="Operation histories (set/get/increment/halve; sorted insert, delete-member, member, lower bound; positional insert/delete) on 112 generated instantiations of varintPacked.h - every bit width 1-32 with default 32-bit slots, compact slots, explicit 8/16/64-bit slots, the micro-promotion variant used by varintDimension.c and five instantiations with 8-/16-bit length types (PACK_MAX_ELEMENTS), wherever an element never spans more than two slots; arrays from one slot period up to 70000 elements; the *Bytes convenience forms (member, sorted insert, delete-member, positional insert and delete) included. After each operation the complete storage block (guards, all elements, spare bits) is compared with an independently computed little-endian bit-stream image, return values with a sorted-vector model (member = first equal element or -1), and for the single-element operations the traced accesses must lie inside the slots the element occupies. A second engine addresses element indexes whose bit offset exceeds 2^32 (instantiations with a 32-bit length type, storage as an untouched NORESERVE mapping of up to 16 GiB between guard pages, sparse model, alias probes). This family decides the history and footprint parts of the statement; the inputs x configurations part is covered only as far as the swarm makes every (width, slot type, position mod slot period) occur.",
+   text="Operation histories (set/get/increment/halve; sorted insert, delete-member, member, lower bound; positional insert/delete) on 115 generated instantiations of varintPacked.h - every bit width 1-32 with default 32-bit slots, compact slots, explicit 8/16/64-bit slots, the micro-promotion variant used by varintDimension.c and five instantiations with 8-/16-bit length types (PACK_MAX_ELEMENTS), wherever an element never spans more than two slots; arrays from one slot period up to 70000 elements; the *Bytes convenience forms (member, sorted insert, delete-member, positional insert and delete) included. After each operation the complete storage block (guards, all elements, spare bits) is compared with an independently computed little-endian bit-stream image, return values with a sorted-vector model (member = first equal element or -1), and for the single-element operations the traced accesses must lie inside the slots the element occupies. A second engine addresses element indexes whose bit offset exceeds 2^32 (instantiations with a 32-bit length type, storage as an untouched NORESERVE mapping of up to 16 GiB between guard pages, sparse model, alias probes). This family decides the history and footprint parts of the statement; the inputs x configurations part is covered only as far as the swarm makes every (width, slot type, position mod slot period) occur.",
    design_ref="DESIGN.md 3/C09",
    note="Trusted: the reference bit-stream model, the generated shim (tools/gen_packed_shim.py), clang's TSan instrumentation pass for which accesses are seen, the mem* wrappers. SetIncr only in its stated domain."),
  "C10": dict(engine="E-HIST hist.matrix + hist.hugematrix", category="exploration",
